@@ -475,6 +475,7 @@ class ProgramEnv:
         self.next_step = 0
         self.optimize_objs: dict = {}
         self.comp_objs: dict = {}
+        self.module = None
         self.gvars: list = []
         self.nt_classes: dict = {}
         self.shared_pool: dict | None = None  # options objects shared by all programs of a run
@@ -558,6 +559,18 @@ class ProgramEnv:
         k = st[0]
         if k == "defsub":
             self.define_sub(st[1])
+        elif k == "import":
+            import importlib
+
+            self.module = importlib.import_module(self.spec["module"])
+            if self.spec.get("args") is None:
+                obj = getattr(self.module, self.spec["attr"])
+                if self.spec.get("router"):
+                    self.router = obj
+                else:
+                    self.ast = obj
+        elif k == "call":
+            self.ast = getattr(self.module, self.spec["attr"])(*self.spec["args"])
         elif k == "defglobals":
             self.gvars = [pt.ScratchVar(TT[t], sid) for t, sid in self.spec.get("globals", [])]
         elif k == "stmt":
@@ -621,7 +634,8 @@ class ProgramEnv:
         version = opts["version"]
         ac = bool(opts.get("ac"))
         sm = opts.get("sm")  # None | {"annotate": bool, "pcs": bool, "concise": bool}
-        if opts.get("reuse_comp") == "mutate" and self.spec["kind"] != "router" and sm is None:
+        is_router = self.spec["kind"] == "router" or bool(self.spec.get("router"))
+        if opts.get("reuse_comp") == "mutate" and not is_router and sm is None:
             # ONE Compilation object per program; the caller changes its public attributes
             comp = self.comp_objs.get("mutate")
             if comp is None:
@@ -631,14 +645,14 @@ class ProgramEnv:
                 comp.assemble_constants = ac
                 comp.optimize = optimize or pt.OptimizeOptions()
             return comp.compile().teal, None
-        if opts.get("reuse_comp") and self.spec["kind"] != "router" and sm is None:
+        if opts.get("reuse_comp") and not is_router and sm is None:
             # the same Compilation object compiled again ("compiling the same object again")
             key = repr(sorted((k, repr(v)) for k, v in opts.items() if k != "reuse_comp"))
             comp = self.comp_objs.get(key)
             if comp is None:
                 comp = self.comp_objs[key] = pt.Compilation(self.ast, mode, version=version, assemble_constants=ac, optimize=optimize)
             return comp.compile().teal, None
-        if self.spec["kind"] == "router":
+        if is_router:
             if sm is None and not opts.get("via_compile"):
                 ap, cl, _contract = self.router.compile_program(
                     version=version, assemble_constants=ac, optimize=optimize
